@@ -1,6 +1,14 @@
-"""Translators that regenerate coq/theories/**/Gen_*.v from /repo's current source."""
-import os
+"""Translators / generators run before every Coq build.
 
+* coq/_CoqProject is regenerated from the set of .v files (coqdep orders them);
+* coq/theories/Extract/Extract.v is regenerated from coq/extract.d/*.txt
+  (lines "import Mod1 Mod2" and lines of names to extract);
+* GENERATORS holds the source-to-Coq translators (Gen_*.v from /repo's current source).
+"""
+import glob, os
+
+ROOT = os.path.dirname(os.path.dirname(os.path.dirname(os.path.abspath(__file__))))
+COQ = os.path.join(ROOT, "coq")
 GENERATORS = []   # list of callables, each regenerates its file(s) if the content changed
 
 
@@ -16,6 +24,38 @@ def write_if_changed(path, content):
     return True
 
 
+def gen_extract():
+    imports, names = ["Base"], []
+    for p in sorted(glob.glob(os.path.join(COQ, "extract.d", "*.txt"))):
+        for line in open(p):
+            line = line.split("#")[0].strip()
+            if not line:
+                continue
+            if line.startswith("import "):
+                for m in line.split()[1:]:
+                    if m not in imports:
+                        imports.append(m)
+            else:
+                names += [n for n in line.split() if n not in names]
+    body = ("(* GENERATED from coq/extract.d/*.txt by lib/vcheck/gen.py - do not edit.\n"
+            "   Extraction of the executable models to OCaml.  ExtrOcamlBasic only:\n"
+            "   bool/option/unit/list/prod/sumbool/sumor mapped to OCaml's, andb/orb inlined;\n"
+            "   N, Z, positive, nat stay the extracted inductive types. *)\n"
+            "From Coq Require Extraction ExtrOcamlBasic.\n"
+            "From Avfs Require Import %s.\n"
+            "Extraction Language OCaml.\n"
+            "Extraction \"model.ml\"\n  %s.\n" % (" ".join(imports), "\n  ".join(names)))
+    write_if_changed(os.path.join(COQ, "theories", "Extract", "Extract.v"), body)
+
+
+def gen_coqproject():
+    vs = sorted(glob.glob(os.path.join(COQ, "theories", "**", "*.v"), recursive=True))
+    vs = [os.path.relpath(v, COQ) for v in vs if "/Extract/" not in v and "/Scratch/" not in v]
+    write_if_changed(os.path.join(COQ, "_CoqProject"), "-Q theories Avfs\n" + "\n".join(vs) + "\n")
+
+
 def regenerate_all():
     for g in GENERATORS:
         g()
+    gen_extract()
+    gen_coqproject()
